@@ -171,11 +171,15 @@ pub fn decode(bytes: &[u8]) -> Result<ModuleSpec, String> {
                             offset: ConstE::from_parser(offset_expr)?,
                         },
                     };
+                    let mut elem_ty = None;
                     let items = match e.items {
                         wasmparser::ElementItems::Functions(r) => {
                             ElemItems::Funcs(r.into_iter().collect::<Result<_, _>>().map_err(|e| e.to_string())?)
                         }
-                        wasmparser::ElementItems::Expressions(_, r) => {
+                        wasmparser::ElementItems::Expressions(rt, r) => {
+                            if let wasmparser::HeapType::Concrete(i) = rt.heap_type() {
+                                elem_ty = i.as_module_index().map(|t| (t, rt.is_nullable()));
+                            }
                             let mut v = vec![];
                             for x in r {
                                 v.push(ConstE::from_parser(&x.map_err(|e| e.to_string())?)?);
@@ -183,7 +187,7 @@ pub fn decode(bytes: &[u8]) -> Result<ModuleSpec, String> {
                             ElemItems::Exprs(v)
                         }
                     };
-                    m.elems.push(ElemSpec { mode, items });
+                    m.elems.push(ElemSpec { mode, items, ty: elem_ty });
                 }
             }
             Payload::DataCountSection { .. } => {
